@@ -971,9 +971,12 @@ impl TransportHandle {
 
                 let peer_id = ant_peer_id_to_string(&ant_peer_id);
                 let remote_addr = NetworkAddress::from(remote_sock);
-                broadcast_event(&event_tx, P2PEvent::PeerConnected(peer_id.clone()));
+                // Register the peer BEFORE announcing it: subscribers react to PeerConnected by
+                // reading peer_info(); announcing first let them find no addresses, and such a
+                // peer was then never added to the DHT routing table.
                 register_new_peer(&peers, &peer_id, &remote_addr).await;
-                active_connections.write().await.insert(peer_id);
+                active_connections.write().await.insert(peer_id.clone());
+                broadcast_event(&event_tx, P2PEvent::PeerConnected(peer_id));
             }
         });
         *self.listener_handle.write().await = Some(handle);
